@@ -31,6 +31,8 @@ NOT_POLYMATH = {'np', 'numbers', 'warnings', 'sys', 'math'}
 BUILTINS = {'isinstance', 'len', 'tuple', 'list', 'set', 'dict', 'range', 'type', 'str', 'bool', 'int', 'float',
             'enumerate', 'zip', 'any', 'all', 'max', 'min', 'sorted', 'repr', 'hasattr', 'getattr', 'slice', 'abs',
             'IndexError', 'ValueError', 'TypeError', 'setattr', 'delattr', 'reversed', 'sum', 'id', 'iter', 'next'}
+import numpy as _np
+AMBIGUOUS = set(dir(_np.ndarray)) | set(dir(dict)) | set(dir(list)) | set(dir(set))
 OPTIONAL = {'_require_compatible_deriv', '_require_broadcast_into', '_require_assignable'}   # introduced by fix: commits
 
 
@@ -154,6 +156,10 @@ class Tr:
                         root = root.func if isinstance(root, ast.Call) else root.value
                     if isinstance(root, ast.Name) and root.id in NOT_POLYMATH:
                         continue                      # NumPy / stdlib: part of the kernel contract, not of polymath
+                    polymath_receiver = isinstance(root, ast.Name) and (root.id in ('self', 'Qube', 'Units')
+                                                                        or root.id in self.aliases)
+                    if not polymath_receiver and name in AMBIGUOUS:
+                        continue                      # a method ndarray / dict / list also have, on a local variable
                     ev.append(('atom', ('call', name)))
                 elif isinstance(f, ast.Name) and name not in BUILTINS:
                     ev.append(('atom', ('call', name)))
